@@ -220,6 +220,7 @@ bool Hist::opSelfParam() {
     if (gs.empty()) return false;
     size_t g = gs[rng.below(gs.size())]; size_t pi = rng.below(prev.groups[g].params.size());
     const SParam& sp = prev.groups[g].params[pi];
+    if (sp.iv.size() + sp.fv.size() > 4000) return false;     // bulk parameters are not duplicated (the section must stay within 255 blocks)
     static const char* managed[] = {"USED", "FRAMES", "LABELS", "DESCRIPTIONS", "UNITS", "SCALE", "OFFSET", "RATE", "DATA_START", "GEN_SCALE", "FORMAT", "BITS"};
     std::vector<std::string> gnames; for (size_t k = 0; k < prev.groups.size(); ++k) if (!prev.groups[k].name.empty()) gnames.push_back(prev.groups[k].name);
     std::string target;
@@ -245,6 +246,7 @@ bool Hist::opRenameCopy() {
     if (cand.empty()) return false;
     std::pair<size_t, size_t> c = cand[rng.below(cand.size())];
     const SGroup& G = prev.groups[c.first]; const SParam& sp = G.params[c.second];
+    if (sp.iv.size() + sp.fv.size() > 4000) return false;     // bulk parameters are not duplicated (the section must stay within 255 blocks)
     Param copy(obj->parameters().group(c.first).parameter(c.second));
     std::vector<std::string> taken; for (size_t q = 0; q < G.params.size(); ++q) taken.push_back(G.params[q].name);
     std::string nn;
